@@ -1,6 +1,7 @@
 package props
 
 import (
+	"fmt"
 	"os"
 	"testing"
 
@@ -49,4 +50,126 @@ func TestC16Race(t *testing.T) {
 			rt.Fatalf("data race reported during case %d", n)
 		}
 	})
+}
+
+// execC16Sched explores the interleavings of one generated concurrent program at the
+// granularity of store and origin operations: depth-first over all schedules (bounded by
+// VERIF_C16_MAXSCHED per program), each judged by the C16 oracle.
+func execC16Sched(t *testing.T, sc *world.Scenario) (*oracle.Result, string) {
+	total := oracle.NewResult()
+	if len(sc.Sched) > 0 {
+		// a concrete replay
+		obs := world.Run(t, sc)
+		if p := oracle.HarnessProblem(obs); p != "" {
+			return nil, p
+		}
+		res := oracle.C16(obs)
+		res.Evals = 1
+		return res, ""
+	}
+	limit := envInt("VERIF_C16_MAXSCHED", 300)
+	var sched []int
+	runs := 0
+	exhausted := false
+	for runs < limit {
+		cp := *sc
+		cp.Controlled = true
+		cp.Sched = append([]int{0}, sched...)[1:] // copy; an empty schedule still means "controlled"
+		obs := world.Run(t, &cp)
+		if p := oracle.HarnessProblem(obs); p != "" {
+			return nil, p
+		}
+		runs++
+		total.Evals++
+		res := oracle.C16(obs)
+		switches := 0
+		for i := 1; i < len(obs.Trace); i++ {
+			if obs.Trace[i][:3] != obs.Trace[i-1][:3] {
+				switches++
+			}
+		}
+		if switches > 1 {
+			total.NTKeys = append(total.NTKeys, sc.Hash()+"/"+fmt.Sprint(cp.Sched))
+		}
+		for l, n := range res.Labels {
+			total.Labels[l] += n
+		}
+		if len(res.Violations) > 0 {
+			total.Violations = res.Violations
+			cp.Sched = append(cp.Sched[:0:0], cp.Sched...)
+			if len(cp.Sched) == 0 {
+				cp.Sched = []int{0}
+			}
+			total.Replay = &cp
+			return total, ""
+		}
+		// determinism of the controlled execution (every 8th schedule)
+		if runs%8 == 1 {
+			again := world.Run(t, &cp)
+			if fmt.Sprint(again.Trace) != fmt.Sprint(obs.Trace) {
+				total.Label("nondeterministic-trace")
+				if os.Getenv("VERIF_DEBUG") != "" {
+					t.Logf("NONDET\n A=%v\n B=%v", obs.Trace, again.Trace)
+				}
+				total.Unspecified++
+			}
+		}
+		// next schedule in depth-first order
+		alts := obs.Alts
+		for len(sched) < len(alts) {
+			sched = append(sched, 0)
+		}
+		sched = sched[:len(alts)]
+		i := len(sched) - 1
+		for i >= 0 && sched[i]+1 >= alts[i] {
+			i--
+		}
+		if i < 0 {
+			exhausted = true
+			break
+		}
+		sched[i]++
+		sched = sched[:i+1]
+	}
+	if exhausted {
+		total.Label("schedule-space-exhausted")
+	} else {
+		total.Label("schedule-space-truncated")
+	}
+	total.Labels["schedules"] += runs
+	total.NonTrivial = len(total.NTKeys) > 0
+	return total, ""
+}
+
+// TestC16Sched: rapid draws small concurrent programs; all their schedules are enumerated.
+func TestC16Sched(t *testing.T) {
+	c := Check{Prop: "C16", Exec: execC16Sched}
+	c.Gen = func(rt *rapid.T) *world.Scenario {
+		sc := &world.Scenario{Prop: "C16", Backend: "mem"}
+		for i := 0; i < rapid.IntRange(0, 2).Draw(rt, "warm"); i++ {
+			sc.Steps = append(sc.Steps, gen.ReqStep(gen.C16Req(rt, fmt.Sprintf("w%d", i), false)))
+			if gen.Pct(rt, fmt.Sprintf("ws%d", i), 40) {
+				sc.Steps = append(sc.Steps, gen.SleepStep(gen.Pick(rt, fmt.Sprintf("wd%d", i), int64(1), 2, 61)))
+			}
+		}
+		nth := 2
+		if thorough() && gen.Pct(rt, "three", 30) {
+			nth = 3
+		}
+		for ti := 0; ti < nth; ti++ {
+			n := rapid.IntRange(1, 2).Draw(rt, fmt.Sprintf("n%d", ti))
+			var th []*world.Req
+			for i := 0; i < n; i++ {
+				rq := gen.C16Req(rt, fmt.Sprintf("t%d-%d", ti, i), false)
+				rq.Uncond.LatencyNs = 0
+				if rq.Cond != nil {
+					rq.Cond.LatencyNs = 0
+				}
+				th = append(th, rq)
+			}
+			sc.Threads = append(sc.Threads, th)
+		}
+		return sc
+	}
+	RunCheck(t, c)
 }
